@@ -193,3 +193,135 @@ Proof.
   - destruct (ocollect f l) as [b|e'|] eqn:Eb; try discriminate. exact (IH e' Hf eq_refl).
   - exact (Hf x e' Ef).
 Qed.
+
+(* ------------------------------------------------------------------ *)
+(* Python's str order; sort_u is strictly increasing *)
+From Coq Require Import Sorted.
+
+Lemma str_cmp_lt : forall a b, str_cmp a b = Lt <-> str_lt a b.
+Proof.
+  induction a as [|x a IH]; destruct b as [|y b]; cbn [str_cmp]; split; intro H; try discriminate; try (inversion H; fail).
+  - constructor.
+  - reflexivity.
+  - destruct (N.compare x y) eqn:E; try discriminate.
+    + apply N.compare_eq in E. subst. apply str_lt_tail. apply IH. exact H.
+    + apply N.compare_lt_iff in E. apply str_lt_head. exact E.
+  - inversion H as [| ? ? ? ? Hlt | ? ? ? Hlt]; subst.
+    + apply N.compare_lt_iff in Hlt. rewrite Hlt. reflexivity.
+    + rewrite N.compare_refl. apply IH. exact Hlt.
+Qed.
+
+Lemma str_cmp_gt : forall a b, str_cmp a b = Gt <-> str_lt b a.
+Proof.
+  induction a as [|x a IH]; destruct b as [|y b]; cbn [str_cmp]; split; intro H; try discriminate; try (inversion H; fail).
+  - constructor.
+  - reflexivity.
+  - destruct (N.compare x y) eqn:E; try discriminate.
+    + apply N.compare_eq in E. subst. apply str_lt_tail. apply IH. exact H.
+    + apply N.compare_gt_iff in E. apply str_lt_head. exact E.
+  - inversion H as [| ? ? ? ? Hlt | ? ? ? Hlt]; subst.
+    + apply N.compare_gt_iff in Hlt. rewrite Hlt. reflexivity.
+    + rewrite N.compare_refl. apply IH. exact Hlt.
+Qed.
+
+Lemma str_lt_irrefl : forall a, ~ str_lt a a.
+Proof. induction a as [|x a IH]; intro H; inversion H; subst; [lia | auto]. Qed.
+
+Lemma str_lt_trans : forall a b c, str_lt a b -> str_lt b c -> str_lt a c.
+Proof.
+  induction a as [|x a IH]; intros b c H1 H2.
+  - inversion H1; subst. inversion H2; subst; constructor.
+  - inversion H1; subst; inversion H2; subst.
+    + apply str_lt_head. lia.
+    + apply str_lt_head. assumption.
+    + apply str_lt_head. assumption.
+    + apply str_lt_tail. eapply IH; eassumption.
+Qed.
+
+Lemma insert_u_sorted : forall x l, StronglySorted str_lt l -> StronglySorted str_lt (insert_u x l).
+Proof.
+  intros x. induction l as [|y r IH]; intro H; cbn [insert_u].
+  - constructor; constructor.
+  - inversion H as [|? ? Hr Hy]; subst. destruct (str_cmp x y) eqn:E.
+    + exact H.
+    + apply str_cmp_lt in E. constructor; [exact H|]. constructor; [exact E|].
+      rewrite Forall_forall in *. intros z Hz. eapply str_lt_trans; [exact E | apply Hy; exact Hz].
+    + apply str_cmp_gt in E. constructor; [apply IH; exact Hr|].
+      rewrite Forall_forall in *. intros z Hz. apply In_insert_u in Hz. destruct Hz as [->|Hz]; [exact E | apply Hy; exact Hz].
+Qed.
+
+Lemma sort_u_sorted : forall l, StronglySorted str_lt (sort_u l).
+Proof.
+  induction l as [|x l IH]; cbn [sort_u fold_right]; [constructor|]. fold (sort_u l). apply insert_u_sorted. exact IH.
+Qed.
+
+Lemma dedup_sorted : forall l, StronglySorted str_lt (dedup l).
+Proof.
+  intro l. unfold dedup. destruct (many l) eqn:E; [apply sort_u_sorted|].
+  destruct l as [|x [|y r]]; [constructor | constructor; constructor | cbn in E; discriminate].
+Qed.
+
+(* find on the reversed list returns the last element with the property *)
+Lemma find_rev_some : forall (P : str -> bool) l x,
+  find P (rev l) = Some x <-> exists a b, l = a ++ x :: b /\ P x = true /\ forall y, In y b -> P y = false.
+Proof.
+  intros P l. induction l as [|z l IH] using rev_ind; intro x.
+  - cbn. split; [discriminate | intros ([|? ?] & b & H & _); discriminate].
+  - rewrite rev_app_distr. cbn [rev app find]. destruct (P z) eqn:Ez.
+    + split.
+      * intro H. injection H as <-. exists l, []. split; [reflexivity|]. split; [exact Ez | intros y []].
+      * intros (a & b & H & Hx & Hb). destruct b as [|y b] using rev_ind.
+        -- apply app_inj_tail in H. destruct H as [_ ->]. reflexivity.
+        -- clear IHb. rewrite app_comm_cons, app_assoc in H. apply app_inj_tail in H. destruct H as [_ ->].
+           rewrite (Hb y) in Ez by (apply in_or_app; right; left; reflexivity). discriminate.
+    + rewrite IH. split.
+      * intros (a & b & -> & Hx & Hb). exists a, (b ++ [z]). split; [rewrite <- app_assoc; reflexivity|]. split; [exact Hx|].
+        intros y Hy. apply in_app_or in Hy. destruct Hy as [Hy|[<-|[]]]; [apply Hb; exact Hy | exact Ez].
+      * intros (a & b & H & Hx & Hb). destruct b as [|y b] using rev_ind.
+        -- apply app_inj_tail in H. destruct H as [_ ->]. congruence.
+        -- clear IHb. rewrite app_comm_cons, app_assoc in H. apply app_inj_tail in H. destruct H as [-> ->].
+           exists a, b. split; [reflexivity|]. split; [exact Hx|]. intros w Hw. apply Hb. apply in_or_app. left. exact Hw.
+Qed.
+
+Lemma find_rev_none : forall (P : str -> bool) l, find P (rev l) = None <-> forall y, In y l -> P y = false.
+Proof.
+  intros P l. split.
+  - intros H y Hy. apply (find_none _ _ H). apply -> in_rev. exact Hy.
+  - intro H. destruct (find P (rev l)) eqn:E; [|reflexivity]. apply find_some in E. destruct E as [Hi Hp].
+    apply in_rev in Hi. rewrite (H _ Hi) in Hp. discriminate.
+Qed.
+
+(* in a strictly increasing list everything after x is greater and everything before is smaller *)
+Lemma sorted_split : forall a x b, StronglySorted str_lt (a ++ x :: b) ->
+  (forall y, In y a -> str_lt y x) /\ (forall y, In y b -> str_lt x y).
+Proof.
+  induction a as [|z a IH]; intros x b H; cbn [app] in H; inversion H as [|? ? Hs Hf]; subst.
+  - split; [intros y [] | rewrite Forall_forall in Hf; exact Hf].
+  - destruct (IH _ _ Hs) as [H1 H2]. split; [|exact H2]. intros y [<-|Hy]; [|apply H1; exact Hy].
+    rewrite Forall_forall in Hf. apply Hf. apply in_or_app. right. left. reflexivity.
+Qed.
+
+Lemma count_str_occ : forall x l, count_str x l = count_occ (list_eq_dec N.eq_dec) l x.
+Proof.
+  intros x l. unfold count_str. induction l as [|y l IH]; cbn [filter count_occ length]; [reflexivity|].
+  destruct (list_eq_dec N.eq_dec y x) as [->|Hne].
+  - rewrite str_eqb_refl. cbn [length]. rewrite IH. reflexivity.
+  - assert (str_eqb x y = false) as -> by (apply str_eqb_neq; congruence). exact IH.
+Qed.
+
+(* the character before a position: the last one of the text read so far, or the one before the start *)
+Definition last_or (prev : option N) (a : str) : option N := match rev a with c :: _ => Some c | [] => prev end.
+
+Lemma last_or_cons : forall prev c a, last_or prev (c :: a) = last_or (Some c) a.
+Proof.
+  intros prev c a. unfold last_or. cbn [rev]. destruct (rev a) as [|x r] eqn:E; reflexivity.
+Qed.
+
+Lemma last_of_some : forall a c, last_of a = Some c -> exists pre, a = pre ++ [c].
+Proof.
+  intros a c H. unfold last_of in H. destruct (rev a) as [|x r] eqn:E; [discriminate|]. injection H as ->.
+  exists (rev r). rewrite <- (rev_involutive a), E. reflexivity.
+Qed.
+
+Lemma last_of_app1 : forall pre c, last_of (pre ++ [c]) = Some c.
+Proof. intros. unfold last_of. rewrite rev_app_distr. reflexivity. Qed.
